@@ -25,7 +25,8 @@ METHODS = ["fourier", "fir", "iir", "boxcar"]
 MCOQ = {"fourier": "MFourier", "iir": "MIir", "boxcar": "MBoxcar", "filtfilt": "MFiltfilt"}
 K_ODD = "C18/filtered_fourier/odd-n-grid"
 K_DELTA = "C18/output-axis/interval-beyond-float-rate"
-K_IIR = "C18/iir/ba-form-order>=16"
+K_IIR = "C18/iir/ba-form-ill-conditioned"
+K_IIRSPEC = "C18/iir/stop-edge-inside-pass-band"
 
 
 def fh(x):
@@ -438,6 +439,42 @@ def true_band_fail(x, y, Fs, lb, ub, coded=False):
     return None
 
 
+def iir_ba_rounding(T, cfg, rec):
+    """size (relative to the data) of the rounding error of the transfer-function (b, a) realisation that
+    FilterAnalyzer.iir uses: the same design realised as second-order sections is the reference"""
+    import scipy.signal as ss
+    if not rec["iirdesign"] or rec["iirdesign"][0]["res"] is None:
+        return 0.0
+    e = rec["iirdesign"][0]
+    wp = e["wp"] if len(e["wp"]) > 1 else float(e["wp"][0])
+    ws = e["ws"] if len(e["ws"]) > 1 else float(e["ws"][0])
+    try:
+        sos = ss.iirdesign(wp, ws, e["gpass"], e["gstop"], ftype=cfg.get("ftype", "ellip"), output="sos")
+        b, a = e["res"]
+        worst = 0.0
+        for x in rows(T.data):
+            pad = 3 * max(len(a), len(b))
+            y1 = ss.filtfilt(b, a, x)
+            y2 = ss.sosfiltfilt(sos, x, padlen=pad)
+            if not (np.all(np.isfinite(y1)) and np.all(np.isfinite(y2))):
+                return float("inf")
+            worst = max(worst, float(np.max(np.abs(y1 - y2))))
+        return worst / scale_of(T.data)
+    except Exception:  # noqa
+        return 0.0
+
+
+def iir_spec_flipped(rec, lb, ub_is_nyq):
+    """nitime's fixed clamps put the stop edge inside the pass band (scipy then designs the opposite type)"""
+    if not rec["iirdesign"]:
+        return False
+    e = rec["iirdesign"][0]
+    if len(e["wp"]) != 1:
+        return bool(e["ws"][0] >= e["wp"][0] or e["ws"][1] <= e["wp"][1])
+    wp, ws = float(e["wp"][0]), float(e["ws"][0])
+    return (ws >= wp) if (lb > 0 and ub_is_nyq) else (ws <= wp)
+
+
 def oracle(sc, res=None):
     """-> list of Fail"""
     fails = []
@@ -453,11 +490,7 @@ def oracle(sc, res=None):
         res = {m: run_method(T, cfg, m) for m in sc["methods"]}
     for method in sc["methods"]:
         out, err, rec = res[method]
-        # iir realised in transfer-function form: order of the denominator iirdesign returned
-        iir_order = 0
-        if method == "iir" and rec["iirdesign"] and rec["iirdesign"][0]["res"] is not None:
-            iir_order = len(rec["iirdesign"][0]["res"][1]) - 1
-        numkey = K_IIR if iir_order >= 16 else None
+        numkey = None
         site = {"fourier": "filtered_fourier", "fir": "fir", "iir": "iir", "boxcar": "filtered_boxcar"}[method]
         if out is None:
             expected_err = (method == "iir" and (allpass or err == "ValueError")) or \
@@ -482,6 +515,8 @@ def oracle(sc, res=None):
         sc_ = scale_of(T.data)
         for c, (x, y) in enumerate(zip(xs, ys)):
             if abs(np.mean(y) - np.mean(x)) > 1e-9 * sc_:
+                if method == "iir" and iir_ba_rounding(T, cfg, rec) > 1e-6:
+                    numkey = K_IIR
                 fails.append(Fail(numkey or "C18/%s/mean" % site, "%s: mean of channel %d changed" % (site, c),
                                   float(np.mean(y)), float(np.mean(x))))
                 break
@@ -494,6 +529,8 @@ def oracle(sc, res=None):
             d = np.max(np.abs(o3.data - (a_ * out.data + b_ * o2.data)))
             # elliptic / Chebyshev recursions in (b, a) form amplify rounding: looser for iir
             if d > (1e-3 if method == "iir" else 1e-7) * sc_:
+                if method == "iir" and iir_ba_rounding(T, cfg, rec) > 1e-6:
+                    numkey = K_IIR
                 fails.append(Fail(numkey or "C18/%s/linearity" % site, "%s is not linear in the data" % site, float(d), 0.0))
         if method == "fourier":
             for c, (x, y) in enumerate(zip(xs, ys)):
@@ -518,50 +555,61 @@ def oracle(sc, res=None):
 
 
 # ------------------------------------------------------------------ FIR / IIR design probes (numerical tests)
-def probe_gain_phase(method, cfg, f, n=600, Fs=1.0):
+def probe_run(method, cfg, f, n=600, Fs=1.0):
     import nitime.timeseries as ts
     t = np.arange(n) / Fs
     x = np.sin(2 * np.pi * f * t) + 7.0
     T = ts.TimeSeries(x, sampling_rate=Fs)
-    out, err, _ = run_method(T, cfg, method)
+    out, err, rec = run_method(T, cfg, method)
     if out is None:
-        return None
+        return None, rec
     y = out.data
     sl = slice(n // 4, 3 * n // 4)
     A = np.stack([np.sin(2 * np.pi * f * t[sl]), np.cos(2 * np.pi * f * t[sl]), np.ones(sl.stop - sl.start)], 1)
     co = np.linalg.lstsq(A, y[sl], rcond=None)[0]
-    return float(np.hypot(co[0], co[1])), float(np.arctan2(co[1], co[0]))
+    return (float(np.hypot(co[0], co[1])), float(np.arctan2(co[1], co[0]))), rec
+
+
+def probe_gain_phase(method, cfg, f):
+    return probe_run(method, cfg, f)[0]
+
+
+def probe_ok(method, where, r):
+    if r is None or not np.all(np.isfinite(r)):
+        return False
+    if where == "inside":
+        return bool((abs(r[0] - 1) < 0.05 if method == "fir" else 0.75 < r[0] < 1.05) and abs(r[1]) < 0.05)
+    return bool(r[0] < 0.05)
 
 
 def design_probes(ctx):
     """pass-band gain ~ 1, zero phase, stop-band attenuation: properties of scipy's designs, TESTED only"""
-    settings = [("low", 0.0, 0.2, [0.05, 0.1], [0.35, 0.45]),
-                ("high", 0.25, None, [0.4, 0.45], [0.05, 0.1]),
-                ("band", 0.15, 0.3, [0.2, 0.25], [0.03, 0.45])]
+    settings = [("low", 0.0, 0.2, [0.05, 0.1], [0.35, 0.45], ("fir", "iir")),
+                ("high", 0.25, None, [0.4, 0.45], [0.05, 0.1], ("fir", "iir")),
+                ("band", 0.15, 0.3, [0.2, 0.25], [0.03, 0.45], ("fir", "iir")),
+                # band edges where iir's fixed stop-band clamps (0.1 / 0.9 of Nyquist) apply
+                ("high", 0.04, None, [0.25], [], ("iir",)),
+                ("low", 0.0, 0.475, [0.2], [], ("iir",))]
     if not ctx.quick:
-        settings += [("low", 0.0, 0.1, [0.03], [0.3]), ("band", 0.2, 0.4, [0.3], [0.05])]
+        settings += [("low", 0.0, 0.1, [0.03], [0.3], ("fir", "iir")), ("band", 0.2, 0.4, [0.3], [0.05], ("fir", "iir"))]
     results = []
-    for method in ("fir", "iir"):
-        for kind, lb, ub, inside, outside in settings:
+    for kind, lb, ub, inside, outside, methods in settings:
+        for method in methods:
             cfg = {"lb": fh(lb), "ub": None if ub is None else fh(ub), "order": 64, "iters": 2}
-            for f in inside:
-                r = probe_gain_phase(method, cfg, f)
-                ok = r is not None and (abs(r[0] - 1) < 0.05 if method == "fir" else 0.75 < r[0] < 1.05) and abs(r[1]) < 0.05
-                results.append({"method": method, "band": kind, "f": f, "where": "inside", "gain_phase": r, "ok": bool(ok)})
-                if not ok:
-                    ctx.report_fail(Fail("C18/%s/design-probe" % method,
-                                         "%s %s-pass [%s,%s]: sinusoid at %s inside the band" % (method, kind, lb, ub, f),
-                                         r, "gain ~ 1, phase ~ 0"),
-                                    Case("", {"probe": {"method": method, "cfg": cfg, "f": f, "where": "inside"}}))
-            for f in outside:
-                r = probe_gain_phase(method, cfg, f)
-                ok = r is not None and r[0] < 0.05
-                results.append({"method": method, "band": kind, "f": f, "where": "outside", "gain_phase": r, "ok": bool(ok)})
-                if not ok:
-                    ctx.report_fail(Fail("C18/%s/design-probe" % method,
-                                         "%s %s-pass [%s,%s]: sinusoid at %s outside the band" % (method, kind, lb, ub, f),
-                                         r, "gain < 0.05"),
-                                    Case("", {"probe": {"method": method, "cfg": cfg, "f": f, "where": "outside"}}))
+            for where, fs in (("inside", inside), ("outside", outside)):
+                for f in fs:
+                    r, rec = probe_run(method, cfg, f)
+                    ok = probe_ok(method, where, r)
+                    results.append({"method": method, "band": kind, "lb": lb, "ub": ub, "f": f, "where": where,
+                                    "gain_phase": r, "ok": ok})
+                    if not ok:
+                        key = "C18/%s/design-probe" % method
+                        if method == "iir" and iir_spec_flipped(rec, lb, ub is None):
+                            key = K_IIRSPEC
+                        ctx.report_fail(Fail(key, "%s %s-pass [%s,%s] at Fs=1: sinusoid at %s Hz %s the band" % (
+                            method, kind, lb, ub, f, where), r,
+                            "gain ~ 1, phase ~ 0" if where == "inside" else "gain < 0.05"),
+                            Case("", {"probe": {"method": method, "cfg": cfg, "f": f, "where": where}}))
     return results
 
 
@@ -732,9 +780,7 @@ def replay(ctx, path):
         p = d["case"]["probe"]
         r = probe_gain_phase(p["method"], p["cfg"], p["f"])
         print(json.dumps({"probe": p, "gain_phase": r}))
-        ok = r is not None and ((abs(r[0] - 1) < 0.05 if p["method"] == "fir" else 0.75 < r[0] < 1.05) and abs(r[1]) < 0.05
-                                if p["where"] == "inside" else r[0] < 0.05)
-        return 0 if ok else 1
+        return 0 if probe_ok(p["method"], p["where"], r) else 1
     if sc is None:
         print("no scenario in replay file")
         return 1
